@@ -101,6 +101,32 @@ CHECKS = {'C01': {'text': 'Lean theorems about an interleaving transition system
                  'aborts on a non-delivery exception of a handler and lets it escape.',
          'technique': 'Lean 4 proof (induction over byte streams / frame lists) + recv-by-recv differential correspondence with the real connection '
                       'layer over in-memory sockets + independent reference oracle'},
+ 'C07': {'text': 'Lean theorems over an interleaving model of SignalManager (one micro-operation per lock section, unbounded '
+                 'contexts/publishers/receivers/threads/connections): key_injective (+remote, prefix test); delivered_iff_in_snapshot(+_done): every '
+                 'snapshot _deliver_local takes is delivered to exactly its members, once, labelled with its key; no_delivery_after_unsubscribe '
+                 '(unsubscribe_takes_effect, quiet_preserved); per_publisher_thread_order_local (full) and per_publisher_thread_order_partial (all '
+                 'receivers, assuming NetworkFifo). Tie: trace refinement — 1-3 real contexts under the deterministic scheduler and simulated '
+                 'network, every lock section / loop enqueue / delivery / socket event replayed on the model (1000 scenarios quick), plus an '
+                 'independent exactly-once / order / subscribed-only / not-after-unsubscribe oracle on the event log and final queues.',
+         'note': 'Partial: the FIFO composition event-loop queue → connection → socket thread across connect/disconnect (hypothesis NetworkFifo, '
+                 "also covering 'one snapshot per publication and context') is not mechanised; checked on the implementation by the oracle. "
+                 'Modelled, not verified: atomic connect, send failure only after the peer closed, set iteration order as a choice, pickling/framing '
+                 '(C06), receiver capacity (C09); trusted: scheduler, simulated network, tap layer (harness/props/pubsub_common.py).',
+         'technique': 'Lean 4 inductive invariants over an interleaving transition system + trace refinement of real executions under a '
+                      'deterministic scheduler + property oracle'},
+ 'C08': {'text': 'Same model as C07. Proved: failed_subscribe_leaves_nothing (+ failed_reply_leaves_nothing, failed_local_subscribe_changes_nothing, '
+                 'rejected_request_leaves_no_remote_subscriber), removal_ends_both_ends and disconnect_ends_both_ends (per step: tables emptied, a '
+                 'notice for every remote subscriber, teardown always runs), subscribe_terminates_partial (each of reply / local send failure / '
+                 'connection close releases the waiting call), and quiescent_consistency_false: the full statement is refuted by a kernel-evaluated '
+                 'witness trace (subscribe racing with remove_rpc_object). Tie: histories of subscribe/unsubscribe lanes racing with '
+                 'remove/make/connect/disconnect/stop on real contexts; after every step drain, dump both tables, compare with the model, probe '
+                 'publications (550 histories + targeted race sweep quick). KNOWN-FINDING: DESIGN §7(l) reproduced on the real code.',
+         'note': 'Not proved: quiescent_consistency_partial (needs the full request/reply/notice pipeline invariant) and the carrier invariant '
+                 'behind subscribe_terminates; both are checked on the implementation only (quiescent table iff, probe deliveries, transmitted-peer '
+                 'sets, no deadlock under the scheduler). A context stopping while its own thread subscribes is outside the quantifier. Trusted: '
+                 'scheduler, simulated network, tap layer.',
+         'technique': 'Lean 4 invariants + kernel-checked counterexample trace + trace/table refinement under a deterministic scheduler with a '
+                      'targeted PCT sweep of the racing handler'},
  'C09': {'text': 'Lean theorems (induction over all op sequences, all capacities ≥ 1, both policies): len_le_cap, queue_sorted, seq_strict_mono_out, '
                  'accounting (permutation of range next), gap_is_lost/gap_count, policy_old/new, getNext_total. Model tied to QMI_SignalReceiver by '
                  'op-sequence differential runs (20k scenarios quick) plus a direct oracle.',
